@@ -147,6 +147,14 @@ class Unit:
             raise UnitError(f'Conversion from `{self}` to `{target}` is not valid.')
         return (self / target).scale_rat()
 
+    def to_dict(self):
+        """scipp.Unit.to_dict: multiplier and the powers of the base units (key absent for a pure scale factor)."""
+        d = {'__version__': 2, 'multiplier': self.scale_rat()}
+        powers = {b: (int(e) if e.denominator == 1 else float(e)) for b, e in zip(BASE, self.dim, strict=True) if e}
+        if powers:
+            d['powers'] = powers
+        return d
+
     def sqrt_checked(self):
         for a in self.dim:
             if (a / 2).denominator != 1:
